@@ -1,5 +1,6 @@
 import GramModel.Generated.ParserShape
 import GramModel.Parser
+import GramModel.Lemmas.Parser
 
 /-!
 # C17 — parsing time does not blow up with nesting or length
@@ -38,6 +39,68 @@ theorem C17_macros_unchanged : C17_macros_unchanged_stmt := by
 second call with the same key is a hit and runs nothing (pending: lifted to the bound
 `misses ≤ 36 · (n + 1)` for a whole parse). -/
 def C17_memo_misses_le_stmt : Prop :=
-  ∀ (toks : Array PModel.PTok) (nt : PModel.NT) (st st' : PModel.PState) (r : PModel.PResult),
-    PModel.parseNT toks (PModel.parseFuel toks) nt 0 PModel.PState.init = some (r, st') →
-    st = st' → (st'.misses.foldl (· + ·) 0) ≤ 36 * (toks.size + 1)
+  ∀ (toks : Array PModel.PTok) (r : PModel.PResult) (st' : PModel.PState),
+    PModel.runParser toks = some (r, st') → (st'.misses.foldl (· + ·) 0) ≤ 36 * (toks.size + 1)
+
+/-! `C17_memo_misses_le_stmt` stays pending (its hypothesis `st = st'` is vacuous bookkeeping and
+the global bound needs a position invariant that is not proved).  What the doc comment above
+describes — the behaviour of one memoised call — is stated and proved precisely here. -/
+
+open PModel in
+/-- **One memoised call.**  In `cacheCheck nt start body st`:
+
+* a *hit* (the key `(nt, start)` is present with value `r`) returns `r` whatever `body` is (the
+  body is not run), leaves the cache and the `misses` counters untouched and adds one to
+  `hits[nt]`;
+* a *miss* (key absent) runs `body` exactly once, on the state whose only change is
+  `misses[nt] + 1` (every other counter, the `hits` and the cache are unchanged); if the body
+  fails (out of fuel) so does the call; otherwise the call returns the body's result `r` and the
+  body's final state with exactly one change: `(nt, start) ↦ r` inserted into the cache — so the
+  key is present afterwards, bound to `r`. -/
+def C17_miss_inserts_key_stmt : Prop :=
+  ∀ (nt : NT) (start : Nat) (body : ParseM PResult) (st : PState),
+    (∀ r, st.cache[(nt.idx, start)]? = some r →
+      (∀ body' : ParseM PResult, cacheCheck nt start body' st = cacheCheck nt start body st) ∧
+      ∃ st', cacheCheck nt start body st = some (r, st') ∧ st'.cache = st.cache ∧
+        st'.misses = st.misses ∧ st'.hits = st.hits.modify nt.idx (· + 1)) ∧
+    (st.cache[(nt.idx, start)]? = none →
+      ∃ st0 : PState,
+        st0.cache = st.cache ∧ st0.hits = st.hits ∧ st0.misses.size = st.misses.size ∧
+        (∀ j, st0.misses[j]? = if j = nt.idx then st.misses[j]?.map (· + 1) else st.misses[j]?) ∧
+        (body st0 = none → cacheCheck nt start body st = none) ∧
+        (∀ r st1, body st0 = some (r, st1) →
+          ∃ st', cacheCheck nt start body st = some (r, st') ∧
+            st'.cache = st1.cache.insert (nt.idx, start) r ∧
+            st'.cache[(nt.idx, start)]? = some r ∧ (nt.idx, start) ∈ st'.cache ∧
+            st'.misses = st1.misses ∧ st'.hits = st1.hits))
+open PModel in
+theorem C17_miss_inserts_key : C17_miss_inserts_key_stmt := by
+  intro nt start body st
+  refine ⟨fun r h => ⟨fun body' => ?_, ?_⟩, fun h => ?_⟩
+  · rw [cacheCheck_hit nt start body' st r h, cacheCheck_hit nt start body st r h]
+  · exact ⟨_, cacheCheck_hit nt start body st r h, rfl, rfl, rfl⟩
+  · refine ⟨{ st with misses := st.misses.modify nt.idx (· + 1) }, rfl, rfl, ?_, ?_, ?_, ?_⟩
+    · simp
+    · intro j
+      simp only [Array.getElem?_modify]
+      by_cases hj : j = nt.idx
+      · subst hj; simp
+      · have : ¬ nt.idx = j := fun e => hj e.symm
+        simp [hj, this]
+    · intro hb
+      rw [cacheCheck_miss nt start body st h, hb]
+    · intro r st1 hb
+      rw [cacheCheck_miss nt start body st h, hb]
+      exact ⟨_, rfl, rfl, Std.HashMap.getElem?_insert_self, Std.HashMap.mem_insert_self, rfl, rfl⟩
+
+open PModel in
+/-- **The memo table only grows**: running a memoised parsing function (with any fuel, from any
+state) never removes a key from the cache. -/
+def C17_cache_grows_stmt : Prop :=
+  ∀ (toks : Array PTok) (fuel : Nat) (nt : NT) (start : Nat) (st st' : PState) (r : PResult),
+    parseNT toks fuel nt start st = some (r, st') → ∀ k, k ∈ st.cache → k ∈ st'.cache
+open PModel in
+theorem C17_cache_grows : C17_cache_grows_stmt := by
+  intro toks fuel nt start st st' r h
+  exact (Grows.parseNT toks fuel nt start).elim h
+
